@@ -87,13 +87,19 @@ fn kind_refined(op: &Op, plain: String) -> String {
 
 /// Abstract text of `ops` (see module doc), registers named by `nm`.
 pub(crate) fn ops_text(ops: &[Op], nm: &Namer) -> String {
+    ops_text_with(ops, nm, false)
+}
+
+/// … with the op's `Display` text as 7th field when `with_asm` (operand ORDER, which the register
+/// sets of the abstract form do not keep).
+pub(crate) fn ops_text_with(ops: &[Op], nm: &Namer, with_asm: bool) -> String {
     if ops.is_empty() {
         return "-".into();
     }
     let labels = label_table(ops);
     ops.iter()
         .enumerate()
-        .map(|(ix, op)| kind_refined(op, op_text(op, ix, ops, &labels, nm, false)))
+        .map(|(ix, op)| kind_refined(op, op_text(op, ix, ops, &labels, nm, with_asm)))
         .collect::<Vec<_>>()
         .join("|")
 }
@@ -108,7 +114,30 @@ pub fn from_text(text: &str) -> Result<OpList, String> {
     for t in text.split('|') {
         let kind = t.split(':').next().unwrap_or("");
         let k: Vec<&str> = kind.split('.').collect();
-        if k.len() >= 2 && k[0] == "other" && k[1] == "MCPI" {
+        if k.len() >= 2 && k[0] == "other" && ["SUBI", "MULI", "LB", "SB"].contains(&k[1]) {
+            // built through the constructor of the sibling opcode with the same operand shape
+            let imm: u64 = k.get(2).and_then(|s| s.parse().ok()).unwrap_or(0);
+            let imm12 = VirtualImmediate12::new(imm.min(compiler_constants::TWELVE_BITS));
+            let rest = t.find(':').map(|p| &t[p..]).unwrap_or("");
+            let sibling = match k[1] {
+                "SUBI" | "MULI" => "ADDI",
+                "LB" => "LW",
+                _ => "SW",
+            };
+            let as_sib = OpList::from_text(&format!("other.{sibling}.0{rest}"))?;
+            let opcode = match (k[1], as_sib.ops.into_iter().next().map(|o| o.opcode)) {
+                ("SUBI", Some(Either::Left(VirtualOp::ADDI(d, a, _)))) => VirtualOp::SUBI(d, a, imm12),
+                ("MULI", Some(Either::Left(VirtualOp::ADDI(d, a, _)))) => VirtualOp::MULI(d, a, imm12),
+                ("LB", Some(Either::Left(VirtualOp::LW(d, a, _)))) => VirtualOp::LB(d, a, imm12),
+                ("SB", Some(Either::Left(VirtualOp::SW(a, b, _)))) => VirtualOp::SB(a, b, imm12),
+                _ => return Err(format!("bad op {t}")),
+            };
+            ops.push(Op {
+                opcode: Either::Left(opcode),
+                comment: String::new(),
+                owning_span: None,
+            });
+        } else if k.len() >= 2 && k[0] == "other" && k[1] == "MCPI" {
             let imm: u64 = k.get(2).and_then(|s| s.parse().ok()).unwrap_or(0);
             let rest = t.find(':').map(|p| &t[p..]).unwrap_or("");
             let as_mcp = OpList::from_text(&format!("other.MCP{rest}"))?;
@@ -155,12 +184,26 @@ fn apply(pass: &str, set: AbstractInstructionSet, ds: &DataSection) -> Result<Ab
 }
 
 fn report(before: &[Op], after: &[Op]) -> PassReport {
+    report_with(before, after, false)
+}
+
+fn report_with(before: &[Op], after: &[Op], with_asm: bool) -> PassReport {
     let all: Vec<Op> = before.iter().chain(after.iter()).cloned().collect();
     let nm = Namer::for_ops(&all);
     PassReport {
-        before: ops_text(before, &nm),
-        after: ops_text(after, &nm),
+        before: ops_text_with(before, &nm, with_asm),
+        after: ops_text_with(after, &nm, with_asm),
     }
+}
+
+/// [`run_pass`] with the `Display` text of every op as 7th field (for executing the lists).
+pub fn run_pass_asm(pass: &str, ops: &OpList) -> Result<PassReport, String> {
+    let set = AbstractInstructionSet {
+        function: None,
+        ops: ops.ops.clone(),
+    };
+    let out = apply(pass, set, &DataSection::default())?;
+    Ok(report_with(&ops.ops, &out.ops, true))
 }
 
 /// Runs the real pass `pass` (one of [`PASSES`]) on `ops` with an empty data section.
